@@ -45,6 +45,8 @@ static const char *HOSTS_BARE[] = {"aggr.example.test", "192.0.2.7", "2001:db8::
 static const unsigned PORTS[] = {0, 1, 80, 65535};
 static const char *PATHS[] = {NULL, "/", "/a/b.c"};
 #define QUERY "x=1&y=b"
+#define QUERY_QMARK "?x=1??y=b?"
+#define QUERY_DELIMS "m=/a:b@c?d"
 #define FRAG "frag1"
 #define EXPL_ID "expl-id.7"
 #define EXPL_KEY "Expl_key~42"
@@ -83,6 +85,9 @@ static void compose(ccase *c) {
 		for (k = 0; k < 6000 && (size_t)o + 2 < sizeof c->tail; k++) c->tail[o++] = (char)('0' + k % 10);   /* digits only: no credential string can occur in it */
 		c->tail[o] = 0;
 	}
+	/* queries made of the other characters RFC 3986 allows there: '?' (also as the first character), '/', ':' and '@' */
+	if (c->q == 3) o += snprintf(c->tail + o, sizeof c->tail - (size_t)o, "?%s", QUERY_QMARK);
+	if (c->q == 4) o += snprintf(c->tail + o, sizeof c->tail - (size_t)o, "?%s", QUERY_DELIMS);
 	if (c->f) o += snprintf(c->tail + o, sizeof c->tail - (size_t)o, "#%s", FRAG);
 	if (c->u) snprintf(c->uri, sizeof c->uri, "%s://%s:%s@%s", c->scheme, UI_USER[c->u], UI_KEY[c->u], c->tail);
 	else snprintf(c->uri, sizeof c->uri, "%s://%s", c->scheme, c->tail);
@@ -443,8 +448,15 @@ static void check_credentials(const ccase *c, const expect *e, const unsigned ch
 }
 
 static void check_leak(const ccase *c, const char *where, const char *s) {
+	const char *at = strchr(s, '@');
 	if (!c->u) return;
-	if (strstr(s, UI_KEY[c->u]) != NULL || strchr(s, '@') != NULL || strstr(s, UI_USER[c->u]) != NULL)
+	/* an '@' is the user-info separator only inside the authority; the composed query may carry one of its own */
+	if (at != NULL && c->q == 4) {
+		const char *a = strstr(s, "://");
+		a = a ? a + 3 : s;
+		if (at >= a + strcspn(a, "/?#")) at = NULL;
+	}
+	if (strstr(s, UI_KEY[c->u]) != NULL || at != NULL || strstr(s, UI_USER[c->u]) != NULL)
 		report("credential-leak", "%s over %s: the %s handed to the transport is '%s' and contains the embedded user name / key", c->uri, SV_NAME[c->v], where, s);
 }
 
@@ -582,7 +594,7 @@ static void self_check(void) {
 		for (k = 0; k < 2; k++) {
 			for (h = 0; h < 4; h++) if (strstr(HOSTS[h], cr[k])) vf_harness_error("component contains credential string");
 			for (a = 1; a < 3; a++) if (strstr(PATHS[a], cr[k])) vf_harness_error("component contains credential string");
-			if (strstr(QUERY, cr[k]) || strstr(FRAG, cr[k]) || strstr("65535", cr[k])) vf_harness_error("component contains credential string");
+			if (strstr(QUERY, cr[k]) || strstr(QUERY_QMARK, cr[k]) || strstr(QUERY_DELIMS, cr[k]) || strstr(FRAG, cr[k]) || strstr("65535", cr[k])) vf_harness_error("component contains credential string");
 			for (b = 0; b < NSCH; b++) if (SCH[b].rewrite && strstr(SCH[b].rewrite, cr[k])) vf_harness_error("component contains credential string");
 		}
 	}
@@ -896,6 +908,25 @@ static void run(void) {
 		run_guarded(exec_service, &c, &crashed);
 		evaluate(&c, crashed);
 		vf_outcome("long-query:done");
+		vf_case_end(1);
+	}
+	/* (6) queries with '?', '/', ':' and '@' in them: same expectations */
+	memset(&c, 0, sizeof c);
+	for (c.b = 0; c.b < NSCH; c.b++)
+	for (c.q = 3; c.q < 5; c.q++)
+	for (c.u = 0; c.u < 2; c.u++)
+	for (c.a = 0; c.a < 3; c.a++)
+	for (c.f = 0; c.f < 2; c.f++)
+	for (c.v = 0; c.v < NSV; c.v++) {
+		int crashed;
+		c.mask = 0; c.h = 0; c.p = 2; c.x = c.u ? 0 : 1;
+		if (!VF_THOROUGH && c.a == 1) continue;
+		if (!vf_case_begin("odd-query:s%d:q%d:u%d:a%d:f%d:v%d", c.b, c.q, c.u, c.a, c.f, c.v)) continue;
+		compose(&c);
+		reset_seam();
+		run_guarded(exec_service, &c, &crashed);
+		evaluate(&c, crashed);
+		vf_outcome("odd-query:done");
 		vf_case_end(1);
 	}
 	reset_seam();
